@@ -50,6 +50,22 @@ Theorem clients_independent :
 Proof. exact clients_independent_pf. Qed.
 Print Assumptions clients_independent.
 
+(* progress ("queued datagrams are eventually handled, by it or by a fresh generator; a slow client does not block
+   others"): from EVERY reachable state in which address a has unconsumed datagrams (held by a starting generator,
+   queued, or with a handler task that has not run), a finite continuation hands the next one over.  The continuation
+   uses only [polite a] labels: moves of a's own generator/coroutine (resume, yield, wake-up, restart task), first steps
+   of handler tasks (HStart), and OTHER generators merely suspending (GSuspend b) -- no other client has to make
+   progress, return or even be resumed.  (Only a handler of a itself that never yields could starve a.) *)
+Theorem not_starved :
+  forall (ls : list label) (s : state) (a : addr),
+    steps state0 ls = Some s ->
+    held (cl s a) ++ queue (cl s a) ++ proj a (spawned s) <> [] ->
+    exists (ls' : list label) (s' : state),
+      steps s ls' = Some s' /\ Forall (polite a) ls' /\
+      length (hist (cl s' a)) = S (length (hist (cl s a))).
+Proof. exact not_starved_pf. Qed.
+Print Assumptions not_starved.
+
 (* non-vacuity: a run with a suspension, queueing, a return before the first yield (discard), a restart by the
    task-done hook, and a timeout is a trace of the model *)
 Example c16_witness :
